@@ -48,7 +48,7 @@ PROPS = {
     "C13": {
         "level": "exploration",
         "tests": [
-            {"name": "TestC13", "quick": 600, "thorough": 12000},
+            {"name": "TestC13", "quick": 1200, "thorough": 12000},
         ],
     },
     "C04": {
